@@ -387,13 +387,13 @@ theorem run_cases (q : SemQuery) (B : Table) :
         left
         refine ⟨e, fun A => ?_⟩
         unfold run
-        simp only [hc', hj, hb, Bool.false_eq_true, if_false]
+        simp only [hc', hj, hb, Bool.false_eq_true, if_false, Except.map]
       | ok jm =>
         right
-        refine ⟨jm, fun A => ?_⟩
+        refine ⟨jm.widen js.nullWidth, fun A => ?_⟩
         unfold run runWith
-        simp only [hc', hj, hb, Bool.false_eq_true, if_false]
-        cases h : mainLoop q jm A 0 { chain := buildChain q {} } with
+        simp only [hc', hj, hb, Bool.false_eq_true, if_false, Except.map]
+        cases h : mainLoop q (jm.widen js.nullWidth) A 0 { chain := buildChain q {} } with
         | error p => obtain ⟨e, st, n⟩ := p; rfl
         | ok p => obtain ⟨st, n⟩ := p; simp
 
